@@ -16,6 +16,10 @@ claims={
   text="Narrow: every loop of every function under contract carries a decreases measure that is proved non-negative and strictly decreasing (termination of the loop), which bounds the iterations of the simd kernels, Memmem candidate loops (searchStart strictly increases), enumeration loops (pos strictly increases), cache/table maintenance loops. No constant K over all patterns is derived and recursion depth/cost is not bounded.",
   note="Per-call cost of PikeVM, lazy DFA, backtracker recursion and compile time are not decided by this check; map-iteration loops carry no measure.",
   ref="DESIGN 6/C05"),
+ "C06": dict(
+  text="Frame/ownership discipline decided for every exported search, enumeration and replace method of Regex and Engine (57 entry points, enumerated from the types): a bottom-up modifies-summary over the SSA call graph (RTA-resolved interface calls, field-sensitive access paths) shows which memory each entry point writes; writes must be atomic, to freshly allocated memory, or to state handed out by sync.Pool.Get / atomic.Pointer.Swap. 15 entry points are clean; the others write 16 shared objects without synchronisation - all listed as open known findings (shared PikeVM instances, backtracker internalState, composite scratch), one of them confirmed under go test -race. Any other unsynchronised write to shared or input memory is reported with its call chain.",
+  note="Decides the ownership discipline, not interleavings: linearizability of sync.Pool / sync/atomic is assumed; 'same result as alone' additionally rests on C13. User callbacks and dynamic function values are outside the contract; unsafe/reflect aliasing is not followed; paths are index-insensitive. This check is the govc frame engine (static frame inference), not an SMT discharge.",
+  ref="DESIGN 4, 6/C06"),
  "C07": dict(
   text="For every function under any contract (simd kernels and wrappers, Memmem family, sparse set, backtracker incl. the recursive explorers, slot table, lazy-DFA cache and state-ID algebra, onepass transition/slots, search-state recycling, enumeration loops): every index, slice, nil-dereference, division and signed-overflow obligation is discharged for all inputs (zero annotations needed for these), explicit panics are unreachable, loops terminate, reported spans satisfy at<=start<=end<=len and buffers are only written inside the declared frame.",
   note="Assumed: trusted leaf contracts (assembly kernels, PikeVM, lazy DFA search loops, dispatcher), stdlib specs, len<=2^47/2^48 size bounds written as preconditions, (*NFA).State modelled as an opaque immutable object. Compile, regex.go adapters and the assembly are not covered yet.",
@@ -64,7 +68,6 @@ claims={
 na_reason={
  "C01":"dispatch-layer contracts for IsMatch not built yet (leaf engines have no contract within reach; see DESIGN 6/C01)",
  "C02":"dispatch-layer contracts for FindIndices not built yet (currently an assumed contract used by C04)",
- "C06":"frame/ownership engine not built yet",
  "C15":"UTF-8 range compiler contracts not built yet",
  "C17":"literal Seq algebra contracts not built yet",
  "C19":"specialised searcher contracts not built yet",
